@@ -211,6 +211,16 @@ def run_harnesses(names, timeout=1800, jobs=8, playback=False):
                     r['counterexample'] = m.group(1).strip()
                     vals = re.findall(r'//\s*(.*?)\n\s*vec!\[([^\]]*)\]', m.group(1))
                     r['counterexample_values'] = [{'value': a.strip(), 'bytes': b.strip()} for a, b in vals]
+                    # replay the verifier's counterexample natively against the real code
+                    try:
+                        import kani_replay
+                        text = open(os.path.join(HDIR, reg[n]['file'])).read()
+                        tm = re.search(r'^//@inject(?:_in)?\s+(\S+)', text, re.M)
+                        bytes_ = [[int(x) for x in b.split(',') if x.strip()] for a, b in vals]
+                        rr = kani_replay.native_replay(dst, tm.group(1), n, bytes_)
+                        r['native_replay'] = rr
+                    except Exception as e:
+                        r['native_replay'] = {'confirmed': False, 'output': 'native replay error: %r' % (e,)}
             except subprocess.TimeoutExpired:
                 pass
         return results, ilog
